@@ -18,7 +18,7 @@ from mrender import W, ANY
 SRV0 = -16777216       # 0xff000000 as 32-bit two's complement
 TEXTS = ['hello', 'a, b', 'x (y) [z]', 'wl_surface@3', 'nil', '12', 'fd 3', 'new id wl_x@4', ' -> wl_a@1.b()',
          'array', 'héllo ☃', '', 'a=b', "it's", 'tab\there', '1.5', '{q}', '<3>', 'x,y', ', ', '), ',
-         'Report  -  draft', 'two  blanks', 'tabs\t\tx']      # runs of white space inside a text are part of it
+         'Report  -  draft', 'two  blanks', 'tabs\t\tx', 'text/plain;charset=utf-8', 'a;b']      # runs of white space inside a text are part of it
 CHATTER = ['\x1b[1;31mERROR\x1b[0m: no cursor theme', 'plain \x1b[0m reset', '\x1b[33mwarning: colour left switched on', 'half \x1b[1m bold \x1b[31m red', 'hello world', '', 'using wayland', '[debug] frame 12', 'wl_surface@3.commit', '[123.456] not a message',
            '(EE) failed', 'a -> b', '[  12.345] wl_x@1.y(', 'éè unicode', 'x' * 200, '[]', '()',
            # what libwayland itself prints besides messages (a fatal protocol error), and lines that look like diagnostics
